@@ -86,7 +86,16 @@ func scalarString(k protoreflect.Kind, v protoreflect.Value) string {
 }
 
 // Of takes the snapshot of a message (forcing lazy fields).
-func Of(m protoreflect.Message) *Snap {
+func Of(m protoreflect.Message) *Snap { return of(m, nil) }
+
+// OfExpandAny is Of, except that the value bytes of every google.protobuf.Any
+// that expand can resolve are replaced by the snapshot of the unpacked message
+// (payload bytes are not canonical: map order, NaN payloads).
+func OfExpandAny(m protoreflect.Message, expand func(url string, value []byte) protoreflect.Message) *Snap {
+	return of(m, expand)
+}
+
+func of(m protoreflect.Message, expand func(url string, value []byte) protoreflect.Message) *Snap {
 	s := &Snap{Type: string(m.Descriptor().FullName()), Valid: m.IsValid()}
 	m.Range(func(fd protoreflect.FieldDescriptor, v protoreflect.Value) bool {
 		n := &Node{Num: int32(fd.Number()), Name: string(fd.Name()), Kind: fd.Kind()}
@@ -104,7 +113,7 @@ func Of(m protoreflect.Message) *Snap {
 			v.Map().Range(func(k protoreflect.MapKey, mv protoreflect.Value) bool {
 				e := MapEnt{K: scalarString(kd.Kind(), k.Value())}
 				if vd.Message() != nil {
-					e.V.M = Of(mv.Message())
+					e.V.M = of(mv.Message(), expand)
 				} else {
 					e.V.S = scalarString(vd.Kind(), mv)
 				}
@@ -117,13 +126,13 @@ func Of(m protoreflect.Message) *Snap {
 			l := v.List()
 			for i := 0; i < l.Len(); i++ {
 				if fd.Message() != nil {
-					n.List = append(n.List, Val{M: Of(l.Get(i).Message())})
+					n.List = append(n.List, Val{M: of(l.Get(i).Message(), expand)})
 				} else {
 					n.List = append(n.List, Val{S: scalarString(fd.Kind(), l.Get(i))})
 				}
 			}
 		case fd.Message() != nil:
-			n.M = Of(v.Message())
+			n.M = of(v.Message(), expand)
 		default:
 			n.S = scalarString(fd.Kind(), v)
 		}
@@ -132,6 +141,16 @@ func Of(m protoreflect.Message) *Snap {
 	})
 	sort.Slice(s.Fields, func(i, j int) bool { return s.Fields[i].Num < s.Fields[j].Num })
 	s.Unknown = ParseUnknown(m.GetUnknown())
+	if expand != nil && s.Type == "google.protobuf.Any" {
+		fs := m.Descriptor().Fields()
+		if inner := expand(m.Get(fs.ByNumber(1)).String(), m.Get(fs.ByNumber(2)).Bytes()); inner != nil {
+			for _, n := range s.Fields {
+				if n.Num == 2 {
+					n.Kind, n.S, n.M = protoreflect.MessageKind, "", of(inner, expand)
+				}
+			}
+		}
+	}
 	return s
 }
 
